@@ -125,7 +125,8 @@ func GeneratePBBinaryMessage(w io.Writer, m protoreflect.ProtoMessage) error {
 	if m == nil {
 		return fmt.Errorf("module is nil")
 	}
-	bytes, err := proto.Marshal(m)
+	// Map fields are written in key order, so that the same module always gives the same bytes.
+	bytes, err := proto.MarshalOptions{Deterministic: true}.Marshal(m)
 	if err != nil {
 		return err
 	}
